@@ -20,11 +20,11 @@ type crashCfg struct {
 	rule       string
 	entries    []*ssa.Function
 	scope      func(*ssa.Function) bool
-	bcePkgs    []string          // relative package paths to ask the compiler about
-	exceptions map[string]string // "<function>|<construct>" -> reason (reviewed, one construct each)
-	assumedFns map[string]string // function name -> reason: sites listed as assumed, never discharged
-	skipFns    map[string]string // function name -> reason: not reachable from untrusted input (local API)
-	fatalIsOK  map[string]string // "<function>|<construct>" for panic/log.Fatal sites excepted with reason
+	bcePkgs    []string                             // relative package paths to ask the compiler about
+	exceptions map[string]string                    // "<function>|<construct>" -> reason (reviewed, one construct each)
+	assumedFns map[string]string                    // function name -> reason: sites listed as assumed, never discharged
+	skipFns    map[string]string                    // function name -> reason: not reachable from untrusted input (local API)
+	fatalIsOK  map[string]string                    // "<function>|<construct>" for panic/log.Fatal sites excepted with reason
 	assertOK   func(*ssa.TypeAssert) (bool, string) // property-specific discharge of unchecked assertions
 }
 
@@ -186,7 +186,18 @@ func crashInventory(c *Ctx, r *Report, cfg crashCfg) crashStats {
 				check = func() (bool, string) { return false, "explicit panic reachable from untrusted input" }
 			case ssa.CallInstruction:
 				n := callName(x.Common())
-				if fatalCalls[n] {
+				if argIdx, isGrow := growCalls[n]; isGrow && argIdx < len(x.Common().Args) {
+					size := x.Common().Args[argIdx]
+					if _, isC := constInt(size); isC {
+						return
+					}
+					kind = "make"
+					construct = c.exprAt(fn, x.Pos())
+					if construct == "" {
+						construct = n + "(" + pathOf(size) + ")"
+					}
+					check = func() (bool, string) { return c.sizeBounded(pr, size, instr) }
+				} else if fatalCalls[n] {
 					kind = "fatal"
 					construct = c.exprAt(fn, x.Pos())
 					if construct == "" {
@@ -372,16 +383,28 @@ func (c *Ctx) indexSite(pr *prover, unproven map[string]bool, fn *ssa.Function, 
 	}
 }
 
+// growCalls allocate as much memory as one of their arguments says.
+var growCalls = map[string]int{
+	"bytes.Buffer.Grow": 1, "strings.Builder.Grow": 1, "slices.Grow": 1, "bufio.NewReaderSize": 1, "bufio.NewWriterSize": 1,
+	"bytes.Repeat": 1, "strings.Repeat": 1,
+}
+
 // allocBounded: make([]T, n) with non-constant n needs 0 <= n and an upper bound that is a
 // constant, follows from a <=16-bit wire type, or is the length of data already held.
 func (c *Ctx) allocBounded(pr *prover, x *ssa.MakeSlice) (bool, string) {
-	if !pr.LE(nil, false, 0, x.Len, false, 0, x) {
+	return c.sizeBounded(pr, x.Len, x)
+}
+
+// sizeBounded: the size value is proven non-negative and bounded at instruction at.
+func (c *Ctx) sizeBounded(pr *prover, size ssa.Value, at ssa.Instruction) (bool, string) {
+	x := at
+	if !pr.LE(nil, false, 0, size, false, 0, x) {
 		return false, "allocation size not proven non-negative"
 	}
 	cl := pr.collect(x)
-	cl.define(x.Len, 0)
+	cl.define(size, 0)
 	cl.f.close()
-	t := pr.intTerm(x.Len, x)
+	t := pr.intTerm(size, x)
 	i, ok := cl.f.idx[t.node]
 	if !ok {
 		if t.node == "" {
